@@ -333,6 +333,20 @@ theorem ufuncU_comm_same_units (op : ℚ → ℚ → ℚ) (hc : ∀ a b, op a b 
   simp only [ufuncU, hw, hv, if_true, op_comm op hc ⟨s1.wave, s1.value⟩ ⟨s2.wave, s2.value⟩ m fill]
 
 
+/-- commutativity ACROSS units (unitless spectra, any commutative operator): b∘a, computed in b's unit with the sampling
+re-expressed in that unit and left↔right swapped, is a∘b re-expressed in b's unit -/
+theorem ufuncU_comm_across_units (op : ℚ → ℚ → ℚ) (hc : ∀ a b, op a b = op b a) (s1 s2 : USpec)
+    (h1 : s1.vu = none) (h2 : s2.vu = none) (m : Sampling) (fill : ℚ)
+    (hdw : ∀ dw, samplingOf m s1.wave (if s2.wu = s1.wu then s2 else toWave s1.wu s2).wave = some dw → dw ≠ 0) :
+    ufuncU op s2 s1 ((m.scale (waveTo s1.wu s2.wu)).swap) fill = (ufuncU op s1 s2 m fill).map (toWave s2.wu) := by
+  have hinv := unit_invariance_unitless op s1 s2 h1 h2 s2.wu m fill hdw
+  rw [toWave_self s2] at hinv
+  have hA_wu : (toWave s2.wu s1).wu = s2.wu := by simp [toWave_eq, h1]
+  have hA_vu : (toWave s2.wu s1).vu = s2.vu := by simp [toWave_eq, h1, h2]
+  rw [← hinv, (unit_handover_partial op s2 s1 _ fill).1]
+  exact ufuncU_comm_same_units op hc (toWave s2.wu s1) s2 hA_wu hA_vu _ fill
+
+
 /-- non-vacuity: nested ranges, fill 0 -/
 example : ufunc (· + ·) ⟨[1, 2, 3], [10, 20, 30]⟩ ⟨[2, 3, 4, 5], [1, 1, 1, 1]⟩ .min 0
     = .ok ⟨[1, 2, 3, 4, 5], [10, 21, 31, 1, 1]⟩ := by decide +kernel
